@@ -42,7 +42,6 @@ func RedirectTable() map[string]string {
 	in.Redirect["flag.BoolVar"] = "vstubBoolVar"
 	in.Redirect["flag.Parse"] = "vstubFlagParse"
 	in.Redirect["flag.Args"] = "vstubFlagArgs"
-	in.Redirect[Module+"/cmd/sandbox.parsePolicy"] = "vstubParsePolicy"
 	in.Redirect["github.com/elastic/go-ucfg/yaml.NewConfigWithFile"] = "vstubNewConfigWithFile"
 	in.Redirect["(*github.com/elastic/go-ucfg.Config).Unpack"] = "vstubUnpack"
 	in.Redirect[Module+".LoadFilter"] = "vstubLoadFilter"
@@ -57,6 +56,12 @@ func RedirectTable() map[string]string {
 	in.Redirect["(*flag.FlagSet).StringVar"] = "vstubFSStringVar"
 	in.Redirect["(*flag.FlagSet).BoolVar"] = "vstubFSBoolVar"
 	in.Redirect["(*flag.FlagSet).Parse"] = "vstubFSParse"
+	in.Redirect["(*flag.FlagSet).SetOutput"] = "vstubFSSetOutput"
+	in.Redirect["(*flag.FlagSet).PrintDefaults"] = "vstubFSPrintDefaults"
+	in.Redirect["(*flag.FlagSet).String"] = "vstubFSString"
+	in.Redirect["(*flag.FlagSet).Bool"] = "vstubFSBool"
+	in.Redirect["flag.String"] = "vstubFlagString"
+	in.Redirect["flag.Bool"] = "vstubFlagBool"
 	in.Redirect["(*flag.FlagSet).Args"] = "vstubFSArgs"
 	in.Redirect["(*flag.FlagSet).NArg"] = "vstubFSNArg"
 	in.Redirect["(*flag.FlagSet).Arg"] = "vstubFSArg"
